@@ -4,7 +4,8 @@
     recursion back-out heuristic), incl. which failure is raised.
 (B) on the real code, under a wall-clock limit: never RecursionError / hang; for NON-recursive shapes nested to depth d:
     d < max_validation_depth -> the report equals the W3C reference; d >= max -> "Validation path too deep" is raised
-    (never a silently truncated conforming verdict).
+    (never a silently truncated conforming verdict); for recursive shapes (no reference) a report returned under limit L
+    equals the report under limit L+3 (theorem `limit_only_truncates_loudly`, observed on the code).
 """
 import random
 import signal
@@ -203,6 +204,23 @@ def run(ctx, out):
                     if vcase.multiset(code[2], dms, False) != vcase.multiset(rres, dms, False) or code[1] != rconf:
                         out.b_fail.append({"signature": "C19:inexact-below-limit", "case": case, "depth": d, "limit": lim,
                                            "verdict_code": code[1], "verdict_reference": rconf})
+        elif code[0] == "ok" and lim <= 7:
+            # recursive shapes have no reference; the theorem `limit_only_truncates_loudly` on the real code instead:
+            # a report returned under limit L is the report under a larger limit
+            signal.alarm(240)
+            try:
+                code2 = vcase.run_code(sg, dg, {"max_validation_depth": lim + 3})
+            except Timeout:
+                code2 = None
+                out.count("larger_limit_timeout")
+            finally:
+                signal.alarm(0)
+            if code2 is not None:
+                out.count("larger_limit_compared")
+                dms = vcase.declared_msg_shapes(sg)
+                if code2[0] != "ok" or code2[1] != code[1] or vcase.multiset(code2[2], dms, True) != vcase.multiset(code[2], dms, True):
+                    out.b_fail.append({"signature": "C19:report-changes-with-larger-limit", "case": case, "limit": lim,
+                                       "under_limit": [code[0], code[1]], "under_larger_limit": list(code2[:2])})
         if d >= 2:
             out.nontrivial.add(k)
         out.sample({"kind": kind, "limit": lim, "depth": d, "outcome": code[1] if code[0] == "err" else ("conforms=%s" % code[1])})
